@@ -190,6 +190,14 @@ def pub_fp(x, depth=0):
     return out
 
 
+def is_cache_attr(cls, name):
+    import functools
+    try:
+        return isinstance(inspect.getattr_static(cls, name), functools.cached_property)
+    except AttributeError:
+        return False
+
+
 def deep_fp(x):
     """Structural walk over the private state: {path: token}.  Buffers are
     checksummed raw, so an in-place write shows even under a mask."""
@@ -227,6 +235,8 @@ def deep_fp(x):
             elif is_container_obj(o):
                 flat[path] = "obj:" + type(o).__name__
                 for k in sorted(vars(o)):
+                    if is_cache_attr(type(o), k):
+                        continue  # functools.cached_property values are caches, not state
                     walk(vars(o)[k], path + "." + k, depth + 1)
             elif isinstance(o, (np.dtype, slice)):
                 flat[path] = repr(o)
@@ -705,6 +715,8 @@ def build_call(x, kind, mname, variant):
     cls = type(x)
     if kind == "special":
         return special_args(x, mname, variant)
+    if kind in ("prop", "propset", "propdel"):
+        return [], {}
     f = getattr(cls, mname)
     try:
         sig = inspect.signature(f)
@@ -1063,6 +1075,10 @@ def run_case(pool, label, kind, mname, variant, direction, F0):
             y = x.copy()
             args, kw = build_call(x, kind, mname, variant)
             target, watched = x, y
+            F0w = fp(y)
+            kf, df = compare(F0, F0w)
+            if kf == "public":
+                row["copy_of_copy_differs"] = df
         else:
             return run_protocol_case(pool, row, x0, kind, mname, variant, F0)
     except Skip as s:
@@ -1084,7 +1100,7 @@ def run_case(pool, label, kind, mname, variant, direction, F0):
     except Exception as e:
         row["scribbles"] = -1
     F1 = fp(watched)
-    kindd, det = compare(F0, F1)
+    kindd, det = compare(F0 if direction == "A" else F0w, F1)
     if kindd:
         row["changed"] = kindd
         row["diff"] = det
